@@ -212,6 +212,17 @@ CHECKS.update({
    design_ref='DESIGN.md 4 (C06)'),
 })
 
+CHECKS.update({
+ 'C11': dict(
+   category='model_checking', engine='symx', note=PTRUST,
+   technique='path-forking symbolic execution (symx, z3-decided branches) of the real rrel.find over opaque symbolic names; per-path z3 validity queries against a denotational reference semantics of RREL (soundness, completeness, precedence, +p: path); counterexamples replayed with concrete names',
+   text=("Solver verdict over names: for 20 expressions (every operator, nesting, ',', '+p:'), 2 / 3 model shapes, up to 3 start objects per kind and 1-3 name parts, every feasible path "
+         "of the real RREL evaluation is explored with all object names and name parts symbolic (sibling uniqueness assumed); z3 proves per path that the result is the target of a "
+         "derivation of the reference semantics that consumed every part, that None means no derivation exists, that no earlier alternative has one, and that the proxy path is that "
+         "derivation's named objects."),
+   design_ref='DESIGN.md 4 (C11)'),
+})
+
 NA = {
  'C16': "history quantifier over whole-program API calls; no data dimension to make symbolic — only enumeration of concrete call sequences would remain (DESIGN.md 5)",
  'C17': "decided by file-system I/O, glob, abspath and repository objects handed between nested real loads; only enumeration of import graphs would remain (DESIGN.md 5)",
